@@ -127,6 +127,10 @@ pub struct RelayCase {
     /// the second query uses the other transport (what a client does after seeing TC)
     #[serde(default)]
     pub requery_other_transport: bool,
+    /// the second query asks the same name and type in another class (CH if the first was IN,
+    /// else IN): another question, which the upstream has to be asked
+    #[serde(default)]
+    pub requery_other_class: bool,
 }
 
 fn query_edns_strategy() -> impl Strategy<Value = Option<dns::Edns>> {
@@ -171,6 +175,7 @@ pub fn relay_case_strategy(sz: MsgSize, allow_requery: bool) -> impl Strategy<Va
         .prop_map(|(qname, qtype, qclass, b, edns, mut reply, compress, requery_ms)| {
             // derived from values already drawn, so that older replay files keep their meaning
             let requery_flip_case = requery_ms.is_some() && (qtype ^ compress as u16) & 1 == 1;
+            let requery_other_class = requery_ms.is_some() && !requery_flip_case && (qname.len() + qtype as usize / 2) % 2 == 0;
             // the upstream is a recursive resolver answering a query: no TC games here
             reply.header.tc = false;
             reply.header.qr = true;
@@ -206,6 +211,7 @@ pub fn relay_case_strategy(sz: MsgSize, allow_requery: bool) -> impl Strategy<Va
                 requery_ms,
                 requery_flip_case,
                 requery_other_transport: false,
+                requery_other_class,
             }
         })
 }
@@ -222,6 +228,8 @@ pub struct Exchange {
     pub second: Option<(Vec<Got>, Duration)>,
     /// the question of the second query (differs from `question` in letter case only)
     pub second_question: Option<dns::Question>,
+    /// how often the upstream was asked the second question, when it differs from the first
+    pub second_upstream_count: Option<usize>,
     /// transport of the second query
     pub second_tcp: bool,
     pub upstream_count: usize,
@@ -292,6 +300,7 @@ impl<'a> C03Relay<'a> {
             upstream_sent: sent,
             second: None,
             second_question: None,
+            second_upstream_count: None,
             second_tcp: c.tcp != c.requery_other_transport,
             upstream_count: 0,
             err: None,
@@ -327,6 +336,17 @@ impl<'a> C03Relay<'a> {
                     },
                 );
             }
+            if c.requery_other_class && !c.requery_flip_case {
+                question2.qclass = if question.qclass == 1 { 3 } else { 1 };
+                q2.questions[0] = question2.clone();
+                up.set(
+                    qkey(&question2),
+                    Script {
+                        reply: Reply::Model(c.reply.clone(), compress),
+                        ..Default::default()
+                    },
+                );
+            }
             let b2 = dns::encode(&q2, dns::Compress::Off);
             let run2 = |b: &[u8]| -> Result<Vec<Got>, String> {
                 if ex.second_tcp {
@@ -342,6 +362,7 @@ impl<'a> C03Relay<'a> {
             }
             if question2 != question {
                 ex.upstream_count = up.count_for(&qkey(&question)) + up.count_for(&qkey(&question2));
+                ex.second_upstream_count = Some(up.count_for(&qkey(&question2)));
                 return ex;
             }
         }
@@ -458,7 +479,18 @@ impl<'a> C03Relay<'a> {
                     out.class("requery-from-cache");
                 }
                 let asked = ex.second_question.clone().unwrap_or_else(|| ex.question.clone());
-                if asked != ex.question {
+                if asked.qclass != ex.question.qclass {
+                    out.class("requery-in-another-class");
+                    // nobody has asked this question before: an answer to it can only be the
+                    // upstream's if the upstream was asked
+                    if ex.second_upstream_count == Some(0) {
+                        out.fail(
+                            "C03:answered-without-asking-upstream",
+                            format!("{:?} was answered although the upstream was never asked it (the same name and type had been asked in class {} {} ms earlier)", asked, ex.question.qclass, c.requery_ms.unwrap_or(0)),
+                        );
+                        return;
+                    }
+                } else if asked != ex.question {
                     out.class("requery-in-another-letter-case");
                 }
                 judge_one(g, ex.query_id.wrapping_add(1), &asked, Some(dt.as_secs_f64() + 0.5), out);
@@ -708,6 +740,7 @@ pub fn run_c04_wire(ctx: &Ctx) {
             requery_ms: None,
             requery_flip_case: false,
             requery_other_transport: false,
+            requery_other_class: false,
         };
         let out = exec_one(&prop, &case);
         ctx.record(prop.sub(), &case, &out);
@@ -744,6 +777,7 @@ pub fn run_c04_wire(ctx: &Ctx) {
                 requery_ms: None,
                 requery_flip_case: false,
                 requery_other_transport: false,
+                requery_other_class: false,
             })
             .collect();
         let outs = prop.exec_batch(&cases);
@@ -786,6 +820,7 @@ pub fn run_c04_wire(ctx: &Ctx) {
                 requery_ms: Some(50),
                 requery_flip_case: false,
                 requery_other_transport: true,
+                requery_other_class: false,
             });
         }
         let outs = prop.exec_batch(&cases);
